@@ -4,6 +4,7 @@ import (
 	"rare/pkg/expressions"
 	"rare/pkg/expressions/stdlib"
 	"rare/pkg/minijson"
+	"sort"
 	"strconv"
 	"strings"
 )
@@ -12,6 +13,7 @@ type SliceSpaceExpressionContext struct {
 	linePtr   string
 	indices   []int
 	nameTable map[string]int
+	nameOrder []string // keys of nameTable by group index (see orderedNames)
 	source    string
 	lineNum   uint64
 }
@@ -57,8 +59,8 @@ func (s *SliceSpaceExpressionContext) json(named, numbered bool) string {
 	jb.OpenEx(len(s.nameTable) * 50)
 
 	if named {
-		for name, idx := range s.nameTable {
-			jb.WriteInferred(name, s.GetMatch(idx))
+		for _, name := range s.orderedNames() {
+			jb.WriteInferred(name, s.GetMatch(s.nameTable[name]))
 		}
 	}
 	if numbered {
@@ -72,6 +74,26 @@ func (s *SliceSpaceExpressionContext) json(named, numbered bool) string {
 	jb.Close()
 
 	return jb.String()
+}
+
+// orderedNames returns the group names ordered by group index, so the same
+// match always renders the same text (map iteration order is random)
+func (s *SliceSpaceExpressionContext) orderedNames() []string {
+	if len(s.nameOrder) != len(s.nameTable) {
+		names := make([]string, 0, len(s.nameTable))
+		for name := range s.nameTable {
+			names = append(names, name)
+		}
+		sort.Slice(names, func(i, j int) bool {
+			a, b := s.nameTable[names[i]], s.nameTable[names[j]]
+			if a != b {
+				return a < b
+			}
+			return names[i] < names[j]
+		})
+		s.nameOrder = names
+	}
+	return s.nameOrder
 }
 
 func (s *SliceSpaceExpressionContext) array() string {
